@@ -342,7 +342,9 @@ class SessOracle:
     computes the heuristic): the statement applies when the heuristic is consistent (`heuristic_consistent`, which
     includes astar_wgt = 0) — the configuration for which the docstring promises the exact solution; otherwise A* is
     documented as approximate and only what every A* guarantees is checked: sentinel iff unreachable (no cut-off), and a
-    reported value is never below the true minimum."""
+    reported value is never below the true minimum. (Since fix c78e3ab the node label is the travelled distance in A* mode
+    too: wherever the statement applies, the entries written to output_dict and the labels of the nodes a
+    run_routing_forward marked visited are judged as true distances, as in Dijkstra mode.)"""
 
     def __init__(self, n, pos=None, tol=None):
         self.n = n
